@@ -23,6 +23,8 @@ Proved here:
   every pass that runs after `resolveTypes` either returns at once when errors were reported or is
   on the reviewed list of passes that tolerate unresolved references (they test
   `ResolvedDefinition != nil` or do not touch it).
+* `tolerant_passes_are_as_reviewed` — the bodies of those reviewed passes are the ones that were reviewed (hashes
+  regenerated from the current source).
 * `validation_errors_reach_the_exit_status` — from C11: the error of validation is returned by
   `validatePackage` to `validateImpl` / `generateImpl`, which turn it into exit status 1.
 -/
@@ -46,15 +48,25 @@ theorem reference_cycle_never_accepted (deps : Deps) (fuel : Nat) (written : Lis
     (hc : Path deps n n) : sort deps fuel written = none :=
   cycle_is_rejected deps fuel written n hn hc
 
-/-- passes after type resolution that do not need the early return: they check for unresolved
-    references themselves (`ResolvedDefinition != nil`) or never follow them -/
-def tolerantPasses : List String := ["assignUnionCaseTags", "topologicalSortTypes", "validateEnums"]
+/-- the passes that run after resolution without the early return, each reviewed at the body this hash identifies:
+    `assignUnionCaseTags` only prints case types (TypeToShortSyntax, syntactic); `topologicalSortTypes` is the cycle
+    detector itself (predecessor map); `validateEnums` follows the base type (GetUnderlyingType) only when no earlier
+    pass reported an error (`typesAreSound`, fix 9cef2f0 — before it, an alias cycle under an enum base overflowed the
+    stack, and this list wrongly called the pass tolerant). A change of one of these bodies breaks the obligation
+    below until the pass is reviewed again. -/
+def tolerantReviewed : List (String × String) :=
+  [("assignUnionCaseTags", "a17a1d837ff2"), ("topologicalSortTypes", "79009e29d465"), ("validateEnums", "29bf543bb7ea")]
+
+def tolerantPasses : List String := tolerantReviewed.map (·.1)
 
 def afterResolution : List String := validationPasses.drop (validationPasses.idxOf "resolveTypes" + 1)
 
 theorem passes_after_resolution_are_guarded :
     "resolveTypes" ∈ validationPasses ∧
     ∀ p ∈ afterResolution, p ∈ passesSkippedAfterErrors ∨ p ∈ tolerantPasses := by
+  decide +kernel
+
+theorem tolerant_passes_are_as_reviewed : ∀ p ∈ tolerantReviewed, p ∈ passBodyHash := by
   decide +kernel
 
 theorem validation_errors_reach_the_exit_status :
